@@ -1046,6 +1046,15 @@ func propCases(prop string, g *Gen, n int) []*Case {
 			o = append(o, Obs{Name: "hop", Procs: knowing1, Sub: obs})
 			add(&Case{R: r, Obs: o, Oracles: []string{"C19"}})
 		}
+		// details and hints that consist of white space only are texts like any other (only the empty string is skipped)
+		for _, ws := range []string{" ", "\n", "    ", "\t", " \n "} {
+			base := &R{Op: "detail", Kids: []*R{{Op: "new", S: []string{"base"}}}, S: []string{"first"}}
+			r := &R{Op: "detail", Kids: []*R{{Op: "detail", Kids: []*R{base}, S: []string{ws}}}, S: []string{"last"}}
+			add(&Case{R: r, Obs: obs, Oracles: []string{"C19"}})
+			h := &R{Op: "hint", Kids: []*R{{Op: "hint", Kids: []*R{{Op: "hint", Kids: []*R{{Op: "new", S: []string{"base"}}}, S: []string{"first"}}}, S: []string{ws}}}, S: []string{"last"}}
+			add(&Case{R: h, Obs: obs, Oracles: []string{"C19"}})
+			add(&Case{R: &R{Op: "detailf", Kids: []*R{cloneR(base)}, Fmt: []FP{{Kind: "str", Verb: "s", S: ws}}}, Obs: obs, Oracles: []string{"C19"}})
+		}
 		// URLs and details with percent signs (a percent-encoded query): the referral hint quotes them verbatim
 		for _, url := range []string{"https://tracker.example/issues?q=is%3Aopen+label%3Abug", "https://x/100%", "%s%d%v", "https://x/%!"} {
 			leaf := &R{Op: "new", S: []string{"base"}}
